@@ -887,6 +887,27 @@ def i_repeated_calls_in_conditions(c):
     return r.choice([[f"print({e})"], [f"if {e}:"] + ind(["print('yes')"]) + ["else:"] + ind(["print('no')"])])
 
 
+def i_many_masked_literals(c):
+    """Eleven or more literals that the layout stages have to set aside (tabs, trailing blanks, several lines) in one module: whatever names or
+    numbers the tool gives them while it lays the text out, one must not be mistaken for another."""
+    r = c.r
+    n = r.choice([11, 12, 14, 21, 101])
+    lines = []
+    for i in range(n):
+        k = (i + r.randint(0, 2)) % 3
+        if k == 0:
+            lines.append(f"m{i} = \'\'\'first\tcolumn   \n\n\n\n  second {i}\t\nlast\'\'\'")
+        elif k == 1:
+            lines.append(f'm{i} = "only\ttabs\t{i}"')
+        else:
+            lines.append(f'm{i} = """a\tb\nc   """')
+    lines.append("print(" + ", ".join(f"ascii(m{i})" for i in range(0, n, max(1, n // 12))) + ")")
+    return lines
+
+
+i_many_masked_literals.module_only = True
+
+
 def i_negation_needs_parentheses(c):
     """Conditions that the rules negate or paste into another expression and whose top-level operator binds less tightly than `not`
     (conditional expressions, or / and, walrus, chained comparisons): if/else returning booleans, filterfalse lambdas, swapped branches,
@@ -922,7 +943,7 @@ IDIOMS = {f.__name__[2:]: f for f in [
     i_move_before_loop, i_nested_loops, i_logging, i_negated_compare, i_lambda_redundant, i_commented_code, i_while_counter, i_invalid_escape, i_string_ops, i_numpy,
     i_const_iter_loop, i_loop_carried, i_constrained_range, i_effectful_helper, i_multiline_literal_block,
     i_if_control_flow, i_early_continue_forms, i_comprehension_chains,
-    i_shared_state, i_kept_for_effect, i_descriptors, i_repeated_calls_in_conditions, i_negation_needs_parentheses,
+    i_shared_state, i_kept_for_effect, i_descriptors, i_repeated_calls_in_conditions, i_negation_needs_parentheses, i_many_masked_literals,
 ]}
 NEEDS = {"numpy": "numpy"}
 
